@@ -56,13 +56,32 @@ var c17Programs = []string{
 
 func VerifC17Count() int { return len(c17Programs) }
 
+// c17Fragments: pieces of JSON syntax and of JSON escape sequences. Texts glued together from them reach
+// the strings a renderer is most likely to mangle (escape look-alikes such as a literal backslash followed
+// by u003c, quotes next to backslashes) with a handful of symbolic choices instead of six to eight
+// unconstrained bytes.
+var c17Fragments = []string{"\\", "\"", "u003c", "u0026", "u003e", "u2028", "<", ">", "&", "/", "n", "\n", "\x01", "\x7f", "a", "\\u", "{", "}", "[", "]", ":", ",", "'", " "}
+
+// VerifC17Fragments: the text is a concatenation of k fragments, each a symbolic choice.
+func VerifC17Fragments(prog int, k int) {
+	text := ""
+	for i := 0; i < k; i++ {
+		text += c17Fragments[vPick("fragment", len(c17Fragments))]
+	}
+	c17Check(prog, text, 0)
+}
+
 func VerifC17(prog int, T int, twin int) {
+	text := vText("text", 0, T, true)
+	c17Check(prog, text, twin)
+}
+
+func c17Check(prog int, text string, twin int) {
 	src := c17Programs[prog]
 	v, err := Compile(src)
 	if err != nil {
 		vFail("harness: program does not compile: " + src)
 	}
-	text := vText("text", 0, T, true)
 	vNote("source", src)
 	vNote("text", text)
 	ms := v.Run(text)
